@@ -1,0 +1,40 @@
+//! Verification hook points. Compiled only with `--cfg rws_verif`; without an installed
+//! callback every hook point is a no-op.
+use std::sync::{Arc, RwLock};
+
+#[derive(Clone, Copy, Debug, PartialEq, Eq)]
+pub enum Point {
+    /// worker loop: about to call `receiver.lock()`
+    BeforeLock,
+    /// worker loop: the receiver guard has been acquired
+    LockAcquired,
+    /// worker loop: `recv` returned a job (the temporary guard is already dropped)
+    Received,
+    /// worker loop: `job()` returned
+    JobDone,
+    /// `ThreadPool::execute`: about to call `Sender::send`
+    BeforeSend,
+    /// `ThreadPool::execute`: `Sender::send` returned
+    AfterSend,
+    /// `Server::run`: first statement of the per-connection job
+    JobStart,
+}
+
+type Callback = Arc<dyn Fn(Point, usize, u64) + Send + Sync>;
+
+static CALLBACK: RwLock<Option<Callback>> = RwLock::new(None);
+
+pub fn install(callback: Callback) {
+    *CALLBACK.write().unwrap_or_else(|e| e.into_inner()) = Some(callback);
+}
+
+pub fn uninstall() {
+    *CALLBACK.write().unwrap_or_else(|e| e.into_inner()) = None;
+}
+
+pub fn at(point: Point, id: usize, arg: u64) {
+    let callback = CALLBACK.read().unwrap_or_else(|e| e.into_inner()).clone();
+    if let Some(callback) = callback {
+        callback(point, id, arg);
+    }
+}
